@@ -94,6 +94,23 @@ void run_entry(const gen::GGraph &gg, const Json &cs, sim::Chooser &ch, RunResul
         WT ret = WT();
         bool threw = false, aborted = false;
         s.begin_run(&ch, 3000000);
+        // history: earlier calls of TBB entry points in the same process (same vertex count, other weights / edges), executed
+        // by the same virtual workers - state that survives a call (function-local statics, thread_local scratch of pool
+        // threads) meets the next call.  Their results are not judged here (single calls are judged everywhere else).
+        if (cs.has("prelude")) {
+            for (auto &pc : cs["prelude"].arr()) {
+                if (aborted || threw) break;
+                gen::GGraph pg = gen::from_json(pc["graph"]);
+                Built<G> pb; pb.build(pg);
+                auto pwm = boost::get(boost::edge_weight, pb.g);
+                std::list<std::list<Edge>> pcycles;
+                try { (void) call_entry(pc["entry"].as_str(), pb.g, pwm, (size_t) pc.get_int("k", 1), std::back_inserter(pcycles)); }
+                catch (const sim::SimAbort &) { aborted = true; }
+                catch (const std::exception &) { threw = true; }
+                r.fired["history_earlier_call"]++;
+            }
+        }
+        if (!aborted && !threw)
         try { ret = call_entry(entry, b.g, wm, k, std::back_inserter(cycles)); }
         catch (const sim::SimAbort &) { aborted = true; }
         catch (const std::exception &) { threw = true; }
@@ -234,10 +251,37 @@ public:
             if (g.family == "core_satellites" && g.n >= 9) cs["entry"] = approx ? "approx_signed_tbb" : "signed_tbb";   // big dense cores: the vertex reduce of the signed search
             cfg["k"] = k; cmin["k"] = 1;
         }
+        if (p == "C03" && !c05 && g.n >= 3 && g.n <= 40 && g.m() >= 3 && rng.chance(120)) {
+            Json pre = Json::array();
+            int np = (int) rng.range(1, 2);
+            for (int q = 0; q < np; q++) {
+                gen::GGraph h = g;
+                std::vector<int64_t> ws; for (auto &e : h.e) ws.push_back(e.w);
+                rng.shuffle(ws); for (size_t i = 0; i < h.e.size(); i++) h.e[i].w = ws[i];
+                if (rng.chance(500)) for (auto &e : h.e) if (rng.chance(300)) e.w = e.w + (int64_t) rng.range(1, 3);
+                int drop = (int) rng.range(0, 2);
+                for (int d = 0; d < drop && h.e.size() > 3; d++) h.e.erase(h.e.begin() + (long) rng.below(h.e.size()));
+                Json pc = Json::object(); pc["graph"] = gen::to_json(h);
+                pc["entry"] = rng.chance(700) ? cs["entry"].as_str() : (approx ? std::string(APPROX[rng.below(3)]) : std::string(EXACT[rng.below(3)]));
+                pc["k"] = (int) cfg.get_int("k", 1);
+                pre.push(pc);
+            }
+            cs["prelude"] = pre;
+        }
         cs["cfg"] = cfg; cs["cfg_min"] = cmin;
         Json lay = Json::array(); lay.push(rng.chance(300) ? 0LL : (long long) (rng.next() >> 2)); cs["layouts"] = lay;
         cs["gen_prop"] = p;
         return cs;
+    }
+    void shrink_extra(const Json &cs, std::vector<Json> &out) override {
+        // history cases: first try without the earlier calls, then with fewer of them
+        if (!cs.has("prelude") || !cs["prelude"].is_arr()) return;
+        { Json c = cs; c.erase("prelude"); c.erase("choices"); out.push_back(c); }
+        for (size_t i = 0; i < cs["prelude"].size() && cs["prelude"].size() > 1; i++) {
+            Json c = cs; Json pre = Json::array();
+            for (size_t j = 0; j < cs["prelude"].size(); j++) if (j != i) pre.push(cs["prelude"][j]);
+            c["prelude"] = pre; c.erase("choices"); out.push_back(c);
+        }
     }
     void run(const Json &cs, sim::Chooser &ch, RunResult &r) override {
         gen::GGraph gg = gen::from_json(cs["graph"]);
